@@ -17,7 +17,7 @@ def build(chk):
         chk.bounded_native("structure_function_vk agrees numerically with 2(C(0)-C(r)) of the von Karman covariance on a grid of separations", "consistency", "r/L0 from 1e-4 to 30, 3 (r0, L0) pairs, tolerance 5e-3", "aotools/turbulence/slopecovariance.py:structure_function_vk")
     chk.confirm_known("C01-yx-unequal-widths", "entries", {"case": "ngs-lgs"})
     chk.bounded_native("end to end against the statement's covariance (independent oracle): entries, symmetry, PSD to single precision, additivity over layers, wavelength scaling", "entries",
-                       "7 small systems (2-3 sensors, asymmetric masks, off-axis, NGS/LGS, 3 layers)", "aotools/turbulence/slopecovariance.py:CovarianceMatrix")
+                       "10 small systems (1-3 sensors, asymmetric masks, off-axis, NGS/LGS, unequal sub-aperture sizes, 3 layers, outer scales 0.5 m .. 5 km)", "aotools/turbulence/slopecovariance.py:CovarianceMatrix")
     chk.math_lemmas.append("a matrix whose entries are covariances of random variables is positive semi-definite (Bochner: the von Karman structure function is conditionally negative definite)")
     chk.notes.append("A-EPS: the 1e-20 offset added to separations is taken in its limit 0 (in float64 it is absorbed for every non-zero separation)")
     chk.notes.append("float32 bitwise-OR mirror: contract x|0 = x, x|x = x; equal REAL values are assumed to have equal float32 bit patterns in the diagonal blocks (measured deviation <= 5e-7 relative)")
